@@ -198,6 +198,39 @@ Theorem one_ret_moves_overlap_refuted :
 Proof. exact seq_moves_overlap_refuted. Qed.
 Print Assumptions one_ret_moves_overlap_refuted.
 
+(* Extensions of narrow parameters (simplify_func prepends one ext/uext per i8..u32 parameter): with the
+   extensions in front of the body every label of the function is found where it was, shifted by the
+   number of extensions - so every jump target lies behind all of them and no jump of the body, not even
+   one to a label the body begins with, runs an extension again ... *)
+Theorem param_exts_prepended_once : forall exts body l pc,
+  Forall not_a_label exts ->
+  find_label l (prepend_exts exts body) 0%nat = Some pc ->
+  (length exts <= pc)%nat /\ find_label l body 0%nat = Some (pc - length exts)%nat.
+Proof. exact prepend_exts_targets_behind. Qed.
+Print Assumptions param_exts_prepended_once.
+
+(* ... stated with the jump of the reference semantics: Sem.goto in the frame of the function with the
+   extensions lands exactly where Sem.goto of the function as written lands, plus their number *)
+Theorem param_exts_goto_in_sem : forall exts f l,
+  Forall not_a_label exts ->
+  goto (MkFrame (prepend_exts exts (fr_body f)) (fr_res f) (fr_pc f) (fr_regs f) (fr_blocks f) (fr_dsts f)) l
+  = match goto f l with
+    | Ok f' => Ok (MkFrame (prepend_exts exts (fr_body f)) (fr_res f) (length exts + fr_pc f')
+                           (fr_regs f) (fr_blocks f) (fr_dsts f))
+    | Er e => Er e
+    end.
+Proof. exact goto_prepend_exts. Qed.
+Print Assumptions param_exts_goto_in_sem.
+
+(* ... whereas an extension put behind a leading label (seeded change C04-y2) directly follows a jump
+   target: a loop back to the label the body starts with extends the parameter again. *)
+Theorem param_ext_after_head_label_refuted :
+  exists e body l pc, not_a_label e /\ find_label l body 0%nat = Some pc /\
+    find_label l (insert_after_head e body) 0%nat = Some pc /\
+    nth_error (insert_after_head e body) (S pc) = Some e.
+Proof. exact ext_after_head_label_refuted. Qed.
+Print Assumptions param_ext_after_head_label_refuted.
+
 (* non-vacuity: a memory operand with all four parts and distinct fresh temporaries *)
 Example lowering_example :
   let m := MkMem T_I32 24 (Some 1%positive) (Some 2%positive) 8 in
